@@ -85,7 +85,7 @@ cpdef object idx_to_date_fast(
     Returns:
         Datetime for the index
     """
-    cdef int seconds
+    cdef long long seconds
 
     if force_into_project:
         if idx < 0:
@@ -93,7 +93,7 @@ cpdef object idx_to_date_fast(
         if idx >= size:
             return end_date
 
-    seconds = idx * resolution
+    seconds = <long long>idx * resolution
     return start_date + timedelta(seconds=seconds)
 
 
@@ -155,8 +155,8 @@ cpdef list collect_intervals_fast(
                 first = run_start if run_start > s_idx else s_idx
                 last = idx if idx < e_idx else e_idx
                 if first < last:
-                    start_dt = start_date + timedelta(seconds=first * resolution)
-                    end_dt = start_date + timedelta(seconds=last * resolution)
+                    start_dt = start_date + timedelta(seconds=<long long>first * resolution)
+                    end_dt = start_date + timedelta(seconds=<long long>last * resolution)
                     intervals.append(interval_class(start_dt, end_dt))
             run_start = -1
         idx += 1
